@@ -275,8 +275,8 @@ func (ex *Exec) frameObligations(fr *Frame, fc *FuncContract, final *State, entr
 	}
 	sort.Strings(keys)
 	for _, k := range keys {
-		if k == allocKey || wholeKeys[k] {
-			continue
+		if k == allocKey || wholeKeys[k] || strings.HasPrefix(k, "R:") || strings.HasPrefix(k, "RC:") || strings.HasPrefix(k, "RD:") {
+			continue // (R: is the ghost visited-set of map iterations)
 		}
 		srt := final.sorts[k]
 		fin := final.h[k]
